@@ -73,8 +73,8 @@ func delStr(d map[string]uint32) string {
 func (h *Hist) genDelegators(cur map[string]uint32) map[string]uint32 {
 	r := h.r
 	lo := func(k chain.Key) string { return strings.ToLower(k.Addr.String()) }
-	switch r.Intn(6) {
-	case 0, 1:
+	switch r.Intn(9) {
+	case 0, 1, 6, 7:
 		return cur
 	case 2:
 		return nil
@@ -88,8 +88,8 @@ func (h *Hist) genDelegators(cur map[string]uint32) map[string]uint32 {
 }
 
 func (h *Hist) genChains(cur []string) []string {
-	switch h.r.Intn(8) {
-	case 0, 1, 2:
+	switch h.r.Intn(12) {
+	case 0, 1, 2, 8, 9, 10:
 		if len(cur) > 0 {
 			return cur
 		}
@@ -122,7 +122,7 @@ func (h *Hist) stakeLine(height int64, signer chain.Key, k chain.Key, amt int64,
 // setup: the owner sets the stake-weight parameters (PIP-22) through governance.
 func (h *Hist) setup(height int64, bt time.Time, codes map[string]int, txs *[][]byte, results *[]abci.ResponseDeliverTx) {
 	ceiling := int64(15000000000)
-	if h.r.Bool() {
+	if h.r.Chance(1, 4) {
 		ceiling = 60000000000
 	}
 	acl := govTypes.ACL{}
@@ -241,7 +241,9 @@ func (h *Hist) action(height int64, bt time.Time, codes map[string]int, txs *[][
 		cur := v.StakedTokens.Int64()
 		floor := int64(15000000000)
 		amt := cur + int64([]int{-1000000, -1, 0, 0, 1, 1000000, 2000001}[r.Intn(7)])
-		switch r.Intn(5) {
+		switch r.Intn(7) {
+		case 3, 4:
+			amt = cur + int64(r.Intn(3))*1000000
 		case 0:
 			amt = (cur/floor + 1) * floor // next bin exactly
 		case 1:
@@ -250,9 +252,15 @@ func (h *Hist) action(height int64, bt time.Time, codes map[string]int, txs *[][
 			amt = cur + floor + int64(r.Intn(3))
 		}
 		out := v.OutputAddress
+		if out == nil && !r.Chance(1, 8) { // custodial genesis record: the operator sets an output address
+			out = k.Addr
+			if r.Chance(1, 3) {
+				out = h.outs[r.Intn(2)].Addr
+			}
+		}
 		signer := k
 		okey, hasOut := outKeyOf(h, v)
-		switch r.Intn(8) {
+		switch r.Intn(9) {
 		case 0: // operator tries to move the output address
 			out = h.outs[r.Intn(3)].Addr
 		case 1: // current output signs and moves the output address
